@@ -40,10 +40,41 @@ pub fn health_once(port: u16, limit: Duration) -> Result<String, String> {
                 }
             }
             Err(e) => {
-                if buf.is_empty() {
-                    return Err(format!("no reply within {:?}: {}", limit, e.kind()));
+                if !buf.is_empty() {
+                    break;
                 }
-                break;
+                // Silence for `limit`. On a loaded machine that proves nothing: the connection
+                // stays open while the harness's load generators pause; it counts as unanswered
+                // only once the server has settled (all threads blocked, receive queue unchanged)
+                // with still nothing on it. "LATE" / "BUSY" are inconclusive outcomes.
+                let Some((pid, uport)) = current_server() else {
+                    return Err(format!("no reply within {:?}: {}", limit, e.kind()));
+                };
+                JUDGING.fetch_add(1, std::sync::atomic::Ordering::SeqCst);
+                let _ = s.set_read_timeout(Some(Duration::from_millis(50)));
+                let t1 = Instant::now();
+                let mut streak = 0;
+                let verdict = loop {
+                    if let Ok(n) = s.read(&mut tmp) {
+                        if n > 0 {
+                            break Err(format!("LATE: answered only {:?} after connecting", t0.elapsed()));
+                        }
+                        break Err("connection closed without a reply".to_string());
+                    }
+                    if pid_quiescent(pid, uport, Duration::from_millis(150)) {
+                        streak += 1;
+                        if streak >= 3 {
+                            break Err(format!("no reply within {:?} and the server has settled without answering", limit));
+                        }
+                    } else {
+                        streak = 0;
+                    }
+                    if t1.elapsed() > Duration::from_secs(30) {
+                        break Err("BUSY: no reply, and the server never settled within 30 s".to_string());
+                    }
+                };
+                JUDGING.fetch_sub(1, std::sync::atomic::Ordering::SeqCst);
+                return verdict;
             }
         }
         if t0.elapsed() > limit {
@@ -61,6 +92,7 @@ pub struct Observed {
 /// Observe one running configuration. Returns violations as (signature, reason).
 pub fn observe(out: &mut Out, sp: &mut ServerProc, pk: &[u8], nworkers: usize, rng: &mut Rng, window: Duration) -> Vec<(String, String)> {
     let mut v: Vec<(String, String)> = Vec::new();
+    set_current_server(Some((sp.pid(), sp.cfg.port)));
     let t0 = Instant::now();
     let drops0 = crate::inproc::udp_drops(sp.cfg.port).unwrap_or(0);
     // light traffic for the whole observation window, from fresh source ports: "stays alive and
@@ -80,6 +112,7 @@ pub fn observe(out: &mut Out, sp: &mut ServerProc, pk: &[u8], nworkers: usize, r
                     std::thread::sleep(Duration::from_millis(5));
                     continue;
                 }
+                yield_to_judges();
                 let proto = if r.chance(1, 3) { Proto::Ietf } else { Proto::Classic };
                 match probe(port, &pkc, proto, &mut r, Duration::from_millis(800)) {
                     Ok(_) => ok += 1,
@@ -141,6 +174,7 @@ pub fn observe(out: &mut Out, sp: &mut ServerProc, pk: &[u8], nworkers: usize, r
             match health_once(hp, Duration::from_secs(3)) {
                 Ok(r) if r.starts_with(HTTP_PREFIX) => out.obs("health_replies_ok", 1),
                 Ok(r) => v.push(("C15 health wrong-reply".into(), format!("health check answered {:?}", r))),
+                Err(e) if e.starts_with("LATE") || e.starts_with("BUSY") => out.inconclusive("health check answered late / server never settled (loaded machine)"),
                 Err(e) => v.push(("C15 health sequential unanswered".into(), e)),
             }
         }
@@ -158,6 +192,7 @@ pub fn observe(out: &mut Out, sp: &mut ServerProc, pk: &[u8], nworkers: usize, r
                         bad += 1;
                         why = format!("answered {:?}", r);
                     }
+                    Err(e) if e.starts_with("LATE") || e.starts_with("BUSY") => out.inconclusive("health check answered late / server never settled (loaded machine)"),
                     Err(e) => {
                         bad += 1;
                         why = e;
@@ -232,6 +267,7 @@ pub fn observe(out: &mut Out, sp: &mut ServerProc, pk: &[u8], nworkers: usize, r
                     bad += 1;
                     why = format!("answered {:?}", r);
                 }
+                Err(e) if e.starts_with("LATE") || e.starts_with("BUSY") => out.inconclusive("health check answered late / server never settled (loaded machine)"),
                 Err(e) => {
                     bad += 1;
                     why = e;
@@ -431,9 +467,11 @@ fn run_config(ctx: &Ctx, out: &mut Out, cfg0: &SrvCfg, rng: &mut Rng, tag: &str,
                     out.obs("immediate_restarts_on_same_ports", 1);
                     match sp2.wait_ready(&pk, Duration::from_secs(10)) {
                         Ok(_) => {
+                            set_current_server(Some((sp2.pid(), cfg.port)));
                             if let Some(hp) = cfg.health_check_port {
                                 match health_once(hp, Duration::from_secs(3)) {
                                     Ok(r) if r.starts_with(HTTP_PREFIX) => out.obs("health_checks_after_restart_ok", 1),
+                                    Err(e) if e.starts_with("LATE") || e.starts_with("BUSY") => out.inconclusive("health check answered late / server never settled (loaded machine)"),
                                     other => out.violation("C15 restart health-unanswered", &format!("after an immediate restart on the same ports the health check is not answered: {:?}", other), desc.clone()),
                                 }
                             }
